@@ -5,6 +5,7 @@ package main
 
 import (
 	"fmt"
+	"os"
 	"sort"
 	"sync/atomic"
 )
@@ -14,6 +15,8 @@ type Worker struct {
 	id      int
 	solvers *Solvers
 }
+
+var noSlice = os.Getenv("SYMGO_NOSLICE") != ""
 
 func pcHas(s *State, c *Term) bool {
 	for i := len(s.pc) - 1; i >= 0; i-- {
@@ -61,12 +64,30 @@ func (w *Worker) sat(s *State, c *Term) (string, Model) {
 		atomic.AddInt64(&w.eng.sstats.ModelHits, 1)
 		return "sat", s.model
 	}
-	as := make([]*Term, 0, len(s.pc)+1)
-	as = append(as, s.pc...)
-	as = append(as, c)
+	var as []*Term
+	sliced := false
+	if s.model != nil && !noSlice {
+		// constraint independence: the rest of pc is satisfied by s.model and shares no variable
+		as = append(sliceFor(s.pc, c), c)
+		sliced = true
+	} else {
+		as = make([]*Term, 0, len(s.pc)+1)
+		as = append(as, s.pc...)
+		as = append(as, c)
+	}
 	r, m := w.solveRaw(as)
 	if r == "unknown" {
 		s.job.note("solver-unknown(feasibility)")
+	}
+	if r == "sat" && sliced {
+		merged := make(Model, len(s.model)+len(m))
+		for k, v := range s.model {
+			merged[k] = v
+		}
+		for k, v := range m {
+			merged[k] = v
+		}
+		m = merged
 	}
 	return r, m
 }
